@@ -61,7 +61,7 @@ func TestRegressPinned(t *testing.T) {
 	for _, epf := range []uint{1000, 2} {
 		for _, crc := range []bool{false, true} {
 			for i, o := range ops {
-				if epf == 2 && hasNonLastHit(o) {
+				if epf == 2 && (hasNonLastHit(o) || crc != (i%2 == 0)) {
 					continue
 				}
 				c := caseT{Leaf: 4096, EPF: epf, CRC: crc, Pool: pinnedPool, Repos: pinnedRepos(), Ops: o}
@@ -169,14 +169,17 @@ func TestKnownDeleteFilesNonLastIndexDefault(t *testing.T) {
 		{Name: "big-2", Bundles: []bundleSpec{{Sec: 1, Tag: 1, Pick: []int{0, 1, 2}, Alt: make([]bool, 3)}}},
 	}
 	// last index object: fine
-	last := caseT{Leaf: 4096, EPF: 1000, Pool: pool, Repos: repos, Ops: []opSpec{{Kind: "delfiles", Repo: "big", Sels: []selT{{Kind: "pos", A: 1, B: 0, C: 2}}}}}
-	info := check(t, last, 300*time.Second)
-	if info.Ops[0].Index != "last" {
-		t.Fatalf("harness: expected a hit in the last index object: %+v", info.Ops)
+	if hx.Thorough() {
+		last := caseT{Leaf: 4096, EPF: 1000, Pool: pool, Repos: repos, Ops: []opSpec{{Kind: "delfiles", Repo: "big", Sels: []selT{{Kind: "pos", A: 1, B: 0, C: 2}}}}}
+		info := check(t, last, 300*time.Second)
+		if info.Ops[0].Index != "last" {
+			t.Fatalf("harness: expected a hit in the last index object: %+v", info.Ops)
+		}
+		record(last, info)
 	}
-	record(last, info)
 	// first index object
 	c := caseT{Leaf: 4096, EPF: 1000, Pool: pool, Repos: repos, Ops: []opSpec{{Kind: "delfiles", Repo: "big", Sels: []selT{{Kind: "pos", A: 17, B: 0, C: 0}}}}}
+	var info caseInfo
 	err, hung, panicked := hx.Guard(300*time.Second, func() error {
 		var e error
 		info, e = runCase(c)
